@@ -62,6 +62,11 @@ func VNewStreamListener(ln vnet.Listener, s *VClusterState, m *Metrics) *VStream
 }
 
 func (l *VPacketListener) VHandlePacket(b []byte) error { return l.handlePacket(b) }
+// VNewStreamListenerTimeout is VNewStreamListener with an explicit stream timeout.
+func VNewStreamListenerTimeout(ln vnet.Listener, s *VClusterState, m *Metrics, d time.Duration) *VStreamListener {
+	return newStreamListener(ln, s, d, m, log.NewNopLogger())
+}
+
 func (l *VStreamListener) VHandleConn(c vnet.Conn) error { return l.handleConn(c) }
 
 // VNewGossip assembles a Gossip value exactly as New does but without
